@@ -35,7 +35,7 @@ func (m *Machine) mapFind(mp *amap, k value) *mapEntry {
 	if mp == nil {
 		return nil
 	}
-	if it, ok := k.(iface); ok && it.t != nil && !types.Comparable(it.t) {
+	if it, ok := k.(iface); ok && it.t != nil && it.t != rtypeType && !types.Comparable(it.t) {
 		panic(targetRuntimeError(fmt.Sprintf("hash of unhashable type %s", it.t)))
 	}
 	for _, e := range mp.entries {
